@@ -3,10 +3,10 @@ package main
 // C16 - any call sequence is safe (closed state, idempotent Close, constructors mirror std).
 
 import (
-	"strings"
 	"go/constant"
 	"go/token"
 	"go/types"
+	"strings"
 
 	"golang.org/x/tools/go/ssa"
 )
@@ -124,6 +124,12 @@ func sameLocationLoad(fn *ssa.Function, a, b ssa.Value) bool {
 // mayBeNil: may error value v be nil when instruction `at` executes?
 func (p *Program) mayBeNil(fn *ssa.Function, v ssa.Value, at ssa.Instruction) bool {
 	facts := dominatingFacts(at)
+	// a dominating test of this very value
+	for _, f := range facts {
+		if f.Op == token.NEQ && f.Y != nil && ((f.X == v && isNil(f.Y)) || (f.Y == v && isNil(f.X))) {
+			return false
+		}
+	}
 	for _, leaf := range p.valueSources(v) {
 		if isNil(leaf) {
 			return true
@@ -135,6 +141,8 @@ func (p *Program) mayBeNil(fn *ssa.Function, v ssa.Value, at ssa.Instruction) bo
 					if !p.mayBeNil(fn, st.Val, st) {
 						continue
 					}
+				} else if st == nil && !p.loadMayBeNilOnSomePath(fn, ld) {
+					continue
 				}
 			}
 		}
@@ -717,4 +725,102 @@ func (p *Program) nonNilSince(fn *ssa.Function, tested, leaf ssa.Value) bool {
 		}
 	}
 	return true
+}
+
+// loadMayBeNilOnSomePath: path-sensitive judgement of a load of a field or local slot that several stores (or the
+// value the function was entered with) can reach: walking backwards from the load, every path must meet either a
+// store of a value that is non-nil there (by the facts dominating the store, or by a branch on that very value
+// passed on the way), or a branch edge asserting that the location is non-nil with no store after it.
+func (p *Program) loadMayBeNilOnSomePath(fn *ssa.Function, ld *ssa.UnOp) bool {
+	root, sel := accessPath(ld.X)
+	if sel == "" {
+		if _, ok := root.(*ssa.Alloc); !ok {
+			return true
+		}
+	}
+	sameLoc := func(v ssa.Value) bool {
+		u, ok := v.(*ssa.UnOp)
+		if !ok || u.Op != token.MUL {
+			return false
+		}
+		r2, s2 := accessPath(u.X)
+		return r2 == root && s2 == sel
+	}
+	if len(fn.Blocks) > 96 {
+		return true
+	}
+	budget := 4000
+	var walk func(b *ssa.BasicBlock, from int, nonNil map[ssa.Value]bool, onPath map[*ssa.BasicBlock]bool) bool
+	walk = func(b *ssa.BasicBlock, from int, nonNil map[ssa.Value]bool, onPath map[*ssa.BasicBlock]bool) bool {
+		budget--
+		if budget < 0 {
+			return true
+		}
+		for i := from; i >= 0; i-- {
+			switch x := b.Instrs[i].(type) {
+			case *ssa.Store:
+				r2, s2 := accessPath(x.Addr)
+				if r2 == root && s2 == sel {
+					if nonNil[x.Val] || !p.mayBeNil(fn, x.Val, x) {
+						return false
+					}
+					return true
+				}
+			case ssa.CallInstruction:
+				if _, isAlloc := root.(*ssa.Alloc); !isAlloc {
+					com := x.Common()
+					if f := com.StaticCallee(); f != nil && f.Signature.Recv() != nil && len(com.Args) > 0 && com.Args[0] == root && f.Blocks != nil {
+						for _, w := range p.Effects().ParamWrites(f, 0) {
+							if w == sel || strings.HasPrefix(sel, w+".") {
+								return true // a callee may have rewritten the field
+							}
+						}
+					}
+				}
+			}
+		}
+		if len(b.Preds) == 0 {
+			return true // the value the function was entered with
+		}
+		for _, pred := range b.Preds {
+			if onPath[pred] {
+				continue
+			}
+			nn := nonNil
+			if br, ok := edgeCond(pred, b); ok {
+				if f, ok := branchFact(br); ok && f.Y != nil && f.Op == token.NEQ {
+					var other ssa.Value
+					if isNil(f.Y) {
+						other = f.X
+					} else if isNil(f.X) {
+						other = f.Y
+					}
+					if other != nil {
+						if sameLoc(other) {
+							continue // this edge asserts the location is non-nil and nothing was stored since
+						}
+						nn = map[ssa.Value]bool{}
+						for k := range nonNil {
+							nn[k] = true
+						}
+						nn[other] = true
+					}
+				}
+			}
+			onPath[pred] = true
+			res := walk(pred, len(pred.Instrs)-1, nn, onPath)
+			delete(onPath, pred)
+			if res {
+				return true
+			}
+		}
+		return false
+	}
+	idx := -1
+	for i, in := range ld.Block().Instrs {
+		if in == ssa.Instruction(ld) {
+			idx = i
+		}
+	}
+	return walk(ld.Block(), idx-1, map[ssa.Value]bool{}, map[*ssa.BasicBlock]bool{ld.Block(): true})
 }
